@@ -55,6 +55,11 @@ func (a *OrStrategy) Compute(snapshots <-chan *asset.Snapshot) <-chan Action {
 				result <- Hold
 			}
 		}
+
+		// One of the sources has ended, consume the others to the end.
+		for _, source := range sources {
+			go helper.Drain(source)
+		}
 	}()
 
 	return result
